@@ -39,10 +39,10 @@ func numAPI(tier string) int {
 func init() {
 	runner.Register(&runner.Prop{
 		ID: "C02",
-		Rule: "case = one workload item -> all structures it yields. Items 0..A-1 (A = 10 000 quick / 300 000 thorough): one generated API history (gen/frag: 1..3 tracks, 1..2 segments, 1..3 fragments each with 0..8 samples per op, single/multi-track, full/interval/metadata-only mdat, emsg/prft/free/skip/uuid/unknown children, hostile or tame values) -> the InitSegment, every Fragment built fresh from its spec with and without OptimizeTrun, every MediaSegment with 0..3 sidx boxes and with/without styp, and the whole assembled file decoded by DecodeFile/DecodeFileSR in box-tree and segment mode. " +
+		Rule: "case = one workload item -> all structures it yields. Items 0..A-1 (A = 10 000 quick / 300 000 thorough): one generated API history (gen/frag: 1..3 tracks, 1..2 segments, 1..3 fragments each with 0..8 samples per op, single/multi-track, full/interval/metadata-only mdat, emsg/prft/free/skip/uuid/unknown children, hostile or tame values) -> the InitSegment, every Fragment built fresh from its spec with and without OptimizeTrun, every MediaSegment with 0..3 sidx boxes and with/without styp, and the whole assembled file decoded by DecodeFile/DecodeFileSR in box-tree and segment mode; plus, per history, one member of the codec-configuration family (work.PickRecipe/FromRecipe, a self-contained recipe string kept in the witness): an esds made by CreateEsdsBox with a decoder configuration whose length is swept through windows below 2^7, 2^14 and (few) 2^21, wide enough that the payload of each nested descriptor (DecoderSpecificInfo, DecoderConfigDescriptor, ES_Descriptor) passes limit-2..limit+1 of the base-128 size field, or with the ES_Descriptor flag lattice (streamDependence/URL/OCRstream, all 8 combinations, priority bits, URL lengths 0/1/23/255, the dependent public fields set with the flag and also without it) at small sizes and at the one-digit limit, alone and inside mp4a (CreateAudioSampleEntryBox, with/without btrt), stsd or an init segment; or a Dec3Box literal (there is no constructor) with 1..8 independent substreams with/without dependent ones, NumIndSub left 0 or set to len-1, alone, inside ec-3, through TrakBox.SetEC3Descriptor, and as a decoded one-substream box with appended substreams. " +
 			"Remaining items: the shared C01 input list (corpus seeds, hand-built boxes of every registered type and version/flag shape, gentle mutants, bit flips, field values, N1/N2/N3, nesting, sequences) decoded by DecodeBox, DecodeBoxSR, DecodeFile, DecodeFileSR (fragmented files in both encode modes). " +
 			"Per structure X (fresh instance): s0=Size(); b1=Encode into a buffer; s1=Size(); Info at a PRNG-chosen level into io.Discard; b2=EncodeSW into a FixedSliceWriter of capacity s1+64 and again of capacity exactly s1 (must succeed); 0..2 further Info calls; b3=Encode. Assertions: len(b1)=s1 (minus lazily written mdat payload), s0=s1 unless trun optimisation is on, len(b2)=s1, b3=b1 and second EncodeSW=b2, the reference walker tiles b1 exactly, and for every node of the library tree the node's size field = node.Size() = length of the node encoded on its own = its sub-range of the parent's bytes, children tiling the tail of their parent. " +
-			"Encoders that return an error are outside the property (counted; for decoded structures listed in evidence). non-trivial = a structure whose Encode succeeded and that contains at least one box; distinct by hash of (kind, b1). evaluations = structures checked.",
+			"Encoders that return an error are outside the property (counted; for decoded structures listed in evidence). Evidence only (census.go, read from the written bytes with a parser of the 14496-1 / TS 102 366 syntax, and from public fields of API objects): descriptor payload sizes at the size-field limits with the number of size digits, ES_Descriptor flag combinations, dec3 substream shapes and NumIndSub against len(EC3Subs). non-trivial = a structure whose Encode succeeded and that contains at least one box; distinct by hash of (kind, b1). evaluations = structures checked.",
 		Assumptions: []string{
 			"MdatBox in lazy mode (SetLazyDataSize / metadata-only fragments): by its documented contract the payload is counted by Size() and written by the caller; the expected length is Size() minus the lazy payload",
 			"File in EncModeSegment writes Init, Sidxs, Segments and Mfra only (documented); the length clause is applied to a segment-mode file only if every top-level child is one of those",
